@@ -37,6 +37,7 @@ def sid_to_sid(sid: str | Sid) -> Sid:
     debug(f"Starting with: {sid}")
 
     string = sid.uri if isinstance(sid, Sid) else str(sid)
+    given = string
 
     if string.count("?"):  # sid contains Query ending. We put it aside, and later append it back
         string, query = string.split("?", 1)
@@ -59,6 +60,8 @@ def sid_to_sid(sid: str | Sid) -> Sid:
 
     # no query to handle, we return
     if not query:
+        if not _type and given.count("?"):
+            string = given  # an untyped Sid keeps its input verbatim, also a trailing "?" (an empty query)
         new_sid._init(string=string, type=_type, fields=fields)
         return new_sid
 
